@@ -476,6 +476,10 @@ func MillerLoopFixedQ(P []G1Affine, lines [][2][len(LoopCounter) - 1]LineEvaluat
 		return GT{}, errors.New("invalid inputs sizes")
 	}
 
+	// the line coefficients are scaled in place below by -x/y and 1/y of each P: work on a private copy,
+	// so that the caller's precomputed lines are left untouched and can be reused and shared.
+	lines = append([][2][len(LoopCounter) - 1]LineEvaluationAff(nil), lines...)
+
 	// no need to filter infinity points:
 	// 		1. if Pᵢ=(0,0) then -x/y=1/y=0 by gnark-crypto convention and so
 	// 		lines R0 and R1 are 0. It happens that result will stay, through
